@@ -36,6 +36,26 @@ type c11Obs struct {
 	Right  []ke // rightmost path of the tree
 	NNodes int
 	Msg    string
+	// the MACRO/PASTE pass re-resolves every directive's context: for a document without PASTE its result must be
+	// the scanned tree without the MACRO definitions
+	ScanShape string
+	ExpShape  string
+	ExpRes    string // "" (not run) | ok | err
+}
+
+func treeShape(nn []*core.VerifNode, dropMacro bool) string {
+	var sb strings.Builder
+	for _, n := range nn {
+		if dropMacro && n.Kind == "MACRO" {
+			continue
+		}
+		sb.WriteString(n.Kind)
+		if len(n.Children) > 0 {
+			sb.WriteString("(" + treeShape(n.Children, dropMacro) + ")")
+		}
+		sb.WriteString(" ")
+	}
+	return sb.String()
 }
 
 func classifyTreeErr(je *jerr.JApiError) string {
@@ -78,6 +98,15 @@ func observeTree(text string) (o c11Obs) {
 	}
 	tree := c.VerifTree()
 	o.NNodes = countNodes(tree)
+	if je == nil && !strings.Contains(text, "PASTE") {
+		o.ScanShape = treeShape(tree, true)
+		if e := c.VerifExpand(); e != nil {
+			o.ExpRes = "err"
+		} else {
+			o.ExpRes = "ok"
+			o.ExpShape = treeShape(c.VerifExpandedTree(), true)
+		}
+	}
 	for nn := tree; len(nn) > 0; {
 		last := nn[len(nn)-1]
 		o.Right = append(o.Right, ke{modelKind(last.Kind), last.Explicit})
@@ -121,6 +150,9 @@ func c11Check(cs *c11Case) (ok bool, what string, nontrivial bool) {
 		}
 		if cs.H[last].T == "D" && !eqKE(o.Right, cs.S) {
 			return false, fmt.Sprintf("new directive attached at %v, spec says %v", o.Right, cs.S), nontrivial
+		}
+		if o.ExpRes == "ok" && o.ExpShape != o.ScanShape {
+			return false, fmt.Sprintf("the MACRO/PASTE pass re-nests the directives: scanned tree [%s], after the pass [%s]", o.ScanShape, o.ExpShape), nontrivial
 		}
 	case "ctxerr", "noctx":
 		if o.Res != cs.R {
@@ -295,3 +327,51 @@ func c11Record(args []string) *Result {
 	res.Extra = map[string]any{"events": events}
 	return res
 }
+
+// c11-docs <tlc-output of MC_C08doc>: the second resolver.  The MACRO/PASTE pass re-resolves the context of every
+// directive of the scanned tree (core/compile_core_paste.go); for every document of the block model and every
+// explicit-context variant of it that has no PASTE, the tree after the pass must be the scanned tree without the
+// MACRO definitions (whole documents: closed explicit siblings, implicit siblings with children, ...).
+func c11Docs(args []string) *Result {
+	res := &Result{}
+	if err := loadPools(args[0]); err != nil {
+		res.Error = err.Error()
+		return res
+	}
+	distinct := map[string]struct{}{}
+	err := forEachEmitted(args[0], "E", func(js string) error {
+		var cs struct {
+			Blocks   []string `json:"blocks"`
+			Doc      []Tok    `json:"doc"`
+			Closures [][]Tok  `json:"closures"`
+		}
+		if err := json.Unmarshal([]byte(js), &cs); err != nil {
+			return err
+		}
+		for _, toks := range append([][]Tok{cs.Doc}, cs.Closures...) {
+			text := renderTokens(toks, false, canon).text
+			o := observeTree(text)
+			res.Cases++
+			if o.ExpRes != "ok" {
+				res.count("not-compared(" + o.Res + "/" + o.ExpRes + ")")
+				continue
+			}
+			res.count("compared")
+			if _, ok := distinct[o.ScanShape]; !ok {
+				distinct[o.ScanShape] = struct{}{}
+				res.Nontrivial++
+			}
+			if o.ExpShape != o.ScanShape {
+				res.mismatch("c11:paste-pass-renests", fmt.Sprintf("the MACRO/PASTE pass re-nests the directives: scanned tree [%s], after the pass [%s]", o.ScanShape, o.ExpShape),
+					map[string]any{"kind": "c11-doc", "text": text, "blocks": cs.Blocks})
+			}
+		}
+		return nil
+	})
+	if err != nil {
+		res.Error = err.Error()
+	}
+	return res
+}
+
+func init() { subcmds["c11-docs"] = c11Docs }
